@@ -802,3 +802,84 @@ pub fn replay_apply(ctx: &Ctx, sub: &str, case: &serde_json::Value, prop: &'stat
 pub fn describe_scope() -> serde_json::Value {
     json!({"keys": PKEYS})
 }
+
+// ------------------------------------------------------------------------------------------
+// C05 sub-check: any honest-form delta about the node itself that a peer could still hold (its
+// watermark and versions never exceed the owner's max version) must leave the own namespace alone.
+
+#[derive(Clone, Debug, Serialize, Deserialize)]
+pub struct SelfDeltaCase {
+    /// own writes: (key, 0 set / 1 delete / 2 set_with_ttl / 3 delete_after_ttl)
+    pub own_ops: Vec<(u8, u8)>,
+    /// run the node's own key GC after the grace period (collects its tombstones)
+    pub own_gc: bool,
+    /// the delta about the node itself (clamped to the owner's max version)
+    pub delta: DeltaSpec,
+    pub synack: bool,
+}
+
+pub fn exec_self_delta(case: &SelfDeltaCase, tally: &mut Tally) -> Result<(), Failure> {
+    crate::util::with_paused_runtime(async {
+        let id = simple_id("r", 0, 7602);
+        let mut r = build_node(&id, "c", Duration::from_secs(10), &FdCfg::default(), false, 0).chitchat;
+        for (k, op) in &case.own_ops {
+            let key = PKEYS[*k as usize % 4];
+            let ns = r.self_node_state();
+            match op % 4 {
+                0 => ns.set(key, format!("own-{}", ns.max_version())),
+                1 => ns.delete(key),
+                2 => ns.set_with_ttl(key, "ttl"),
+                _ => ns.delete_after_ttl(key),
+            }
+        }
+        if case.own_gc {
+            crate::util::advance_ns(10_000_000_001).await;
+            r.verif_gc_keys_marked_for_deletion();
+        }
+        let own_max = r.self_node_state().max_version();
+        let wid = WId::from_real(&id);
+        // what a peer could hold: nothing beyond the owner's max version
+        let mut d = delta_to_model(&case.delta);
+        d.id = wid.clone();
+        d.last_gc = d.last_gc.min(own_max);
+        d.from_version = d.from_version.min(own_max);
+        d.kvs.retain(|kv| kv.version <= own_max && kv.version > d.from_version);
+        d.max_version = if d.kvs.is_empty() { d.max_version.min(own_max) } else { d.kvs.last().unwrap().version };
+        let before = crate::util::copy_view(r.node_state(&id).unwrap());
+        let ops = ungroup(std::slice::from_ref(&d));
+        let msg = if case.synack { WMsg::SynAck { digest: vec![WNodeDigest { id: wid, heartbeat: 1, last_gc: d.last_gc, max_version: d.max_version }], ops } } else { WMsg::Ack { ops } };
+        match guard(|| feed(&mut r, &msg)) {
+            Ok(Ok(_)) => {}
+            Ok(Err(_)) => {
+                tally.discard("undecodable");
+                return Ok(());
+            }
+            Err(p) => {
+                tally.discard(&format!("panic: {}", p.signature()));
+                return Ok(());
+            }
+        }
+        let after = crate::util::copy_view(r.node_state(&id).unwrap());
+        if before.entries != after.entries || before.gc != after.gc || before.max != after.max {
+            return vio("C05/own-namespace-changed", format!("a delta about the node itself (watermark {}, start {}, max {}, {} key-values; nothing beyond the owner's max version {own_max}) changed its own namespace: ({},{}) {} entries -> ({},{}) {} entries", d.last_gc, d.from_version, d.max_version, d.kvs.len(), before.gc, before.max, before.entries.len(), after.gc, after.max, after.entries.len()));
+        }
+        if d.last_gc > before.gc || d.kvs.is_empty() {
+            tally.nontrivial(str_hash(&format!("{case:?}")));
+            tally.label(if d.kvs.is_empty() && d.max_version == 0 { "header_only_delta_about_self" } else { "delta_about_self" });
+        }
+        Ok(())
+    })
+}
+
+pub fn self_delta_strategy() -> impl Strategy<Value = SelfDeltaCase> {
+    (proptest::collection::vec((0u8..4, prop_oneof![4 => Just(0u8), 2 => Just(1u8), 1 => Just(2u8), 1 => Just(3u8)]), 1..10), any::<bool>(), delta_strategy(9), any::<bool>())
+        .prop_map(|(own_ops, own_gc, delta, synack)| SelfDeltaCase { own_ops, own_gc, delta, synack })
+}
+
+pub fn run_c05_self(ctx: &Ctx, report: &mut Report) {
+    report.push(run_proptest(ctx, "stale-deltas-about-self", ctx.cases(150_000, 4_000_000), 500, self_delta_strategy, exec_self_delta));
+}
+
+pub fn replay_c05_self(ctx: &Ctx, sub: &str, case: &serde_json::Value) -> SubResult {
+    replay_case::<SelfDeltaCase, _>(ctx, sub, case, exec_self_delta)
+}
